@@ -19,7 +19,8 @@ RULE = ("case = 1-3 Ethereum txs of a fresh signer (fund 4e5..3e15 unibi), each 
         "(frame that reverts after a precompile call), driver contract D calling X 2-5 times in one tx (self-destructs to B/R/D/self "
         "interleaved with payments into X and transfers out), contract creation (ok / reverting init), script contract Z (~15% of the txs: "
         "a generated script of value transfers to B / R / signer / the bank-BLOCKED module accounts x/distribution and fee collector, "
-        "FunToken whoAmI / bankMsgSend calls and self-calls with a sub-script that STOPs or REVERTs, nesting <= 3, top level STOP or "
+        "FunToken whoAmI / bankMsgSend calls, Wasm.execute on a reflect.wasm instance owned by Z (funds in unibi, bank MsgSend of unibi dispatched by the "
+        "wasm contract, a dispatched MsgConvertCoinToEvm of unibi = refused inside a running EVM tx, followed by further bank sends) and self-calls with a sub-script that STOPs or REVERTs, nesting <= 3, top level STOP or "
         "REVERT; half of them contain a credit to a blocked account followed by a precompile call in the same live frame = the "
         "pre-precompile flush fails half-way, in a reverted frame / a reverted tx / kept frames). Measured around DeliverTx: "
         "bank supply(unibi), balances of 19 scenario accounts (incl. the EVM module account), GasUsed, VmError, BlockedAddr of each account. non-trivial = passed the ante handler AND "
@@ -124,8 +125,9 @@ def _script(tx, d, o, xwei_now=None):
     return None
 
 
-_ZID = {"B": 4, "R": 2, "S": 0, "X": 3, "DIST": 18, "FC": 1}
+_ZID = {"B": 4, "R": 2, "S": 0, "X": 3, "DIST": 18, "FC": 1, "Z": 17}
 _Z = 17
+_RW = 19
 
 
 def _xscript(steps):
@@ -136,12 +138,26 @@ def _xscript(steps):
             out.append("XOp (OTransfer %d %d %s)" % (_Z, _ZID.get(st.get("to") or "B", 4), _z(st.get("w") or 0)))
         elif st["op"] == "p":
             if st.get("q"):
-                out.append("XPre None")
+                out.append("XPre [] false")
             else:
-                out.append("XPre (Some (%d%%nat, %d%%nat, %s))" % (_Z, _ZID.get(st.get("to") or "B", 4), _z(st.get("w") or 0)))
+                out.append("XPre [(%d%%nat, %d%%nat, %s)] false" % (_Z, _ZID.get(st.get("to") or "B", 4), _z(st.get("w") or 0)))
+        elif st["op"] == "w":
+            # Wasm.execute(RW, reflect_msg{...}, funds): funds Z -> RW, then the bank sends RW dispatches; a dispatched
+            # MsgConvertCoinToEvm is refused inside a running EVM tx: the call fails as a whole
+            sends = []
+            if int(st.get("funds") or 0) > 0:
+                sends.append("(%d%%nat, %d%%nat, %s)" % (_Z, _RW, _z(st["funds"])))
+            for sd in st.get("sends") or []:
+                sends.append("(%d%%nat, %d%%nat, %s)" % (_RW, _ZID.get(sd.get("to") or "B", 4), _z(sd.get("w") or 0)))
+            # (reflect.wasm itself rejects an empty message list: a failing call as well)
+            refuse = bool(st.get("conv")) or not (st.get("sends") or [])
+            out.append("XPre [%s] %s" % ("; ".join(sends), "true" if refuse else "false"))
         else:
             out.append("XFrame %s %s" % (_xscript(st.get("body")), "false" if st.get("rev") else "true"))
     return "[" + "; ".join(out) + "]"
+
+
+seen_refused = [False]
 
 
 def _zfeatures(steps, reverted, acc, pending=False):
@@ -150,7 +166,15 @@ def _zfeatures(steps, reverted, acc, pending=False):
     for st in steps or []:
         if st["op"] == "t" and st.get("to") in ("DIST", "FC") and int(st.get("w") or 0) >= K:
             pending = True
-        elif st["op"] == "p":
+        elif st["op"] in ("p", "w"):
+            if st["op"] == "w":
+                acc.add("z:wasm-execute/%s%s" % ("DISPATCHES-REFUSED-EVM-MSG" if st.get("conv") else "bank-sends-only", "/in-reverted-frame" if reverted else ""))
+                if seen_refused[0] and not st.get("conv"):
+                    acc.add("z:bank-send-after-refused-dispatch")
+                if st.get("conv"):
+                    seen_refused[0] = True
+            elif seen_refused[0] and not st.get("q"):
+                acc.add("z:bank-send-after-refused-dispatch")
             acc.add("z:precompile-call" + ("/in-reverted-frame" if reverted else ""))
             if pending:
                 acc.add("z:FAILING-FLUSH(blocked-credit-pending)/" + ("frame-reverts" if reverted else "frame-kept(final-commit-fails)"))
@@ -284,6 +308,7 @@ def classify(rec):
                                                              "0" if int(tx.get("fv") or 0) == 0 else "yes", "0" if int(tx.get("fe") or 0) == 0 else "yes"))
         if tx["target"] == "z":
             zf = set()
+            seen_refused[0] = False
             _zfeatures(tx.get("zsteps"), bool(tx.get("zrev")), zf)
             ks.extend(sorted(zf) or ["z:no-precompile-call"])
             ks.append("z:top-level-" + ("reverts" if tx.get("zrev") else "kept"))
